@@ -36,7 +36,8 @@ Legacy == UNION {{[nch |-> n, cal |-> TRUE, anchor |-> a, pads |-> {}, viol |-> 
                    : n \in 1..2, a \in {"pub", "auth"}}
 WithRfc(S, b) == {[nch |-> x.nch, cal |-> x.cal, anchor |-> x.anchor, pads |-> x.pads, viol |-> x.viol, doc |-> x.doc, level |-> x.level, rfc |-> b, epoch |-> "after"] : x \in S}
 (* every case that uses SHA-1 in some role is also placed one second before its deprecation date (where the use is legitimate) and exactly at it *)
-AtBoundary(S) == {[x EXCEPT !.epoch = e] : x \in {y \in S : \E v \in y.viol : v.c \in AlgKinds}, e \in {"before", "at"}}
+(* (only cases without a second violation: one that moves a time by a second would move the use of SHA-1 across the boundary as well) *)
+AtBoundary(S) == {[x EXCEPT !.epoch = e] : x \in {y \in S : y.viol # {} /\ \A v \in y.viol : v.c \in AlgKinds}, e \in {"before", "at"}}
 Cases0 == Plain
          \cup {[nch |-> 1, cal |-> TRUE, anchor |-> "pub", pads |-> {p}, viol |-> {}, doc |-> "equal", level |-> "none"] : p \in PadForms}
          \cup {[nch |-> 2, cal |-> TRUE, anchor |-> "auth", pads |-> {GoodPad, p}, viol |-> {}, doc |-> "absent", level |-> "none"] : p \in PadForms}
